@@ -3,6 +3,7 @@ package main
 // calls.go: builtins, callee resolution, contract application, inlining.
 
 import (
+	"os"
 	"fmt"
 	"go/token"
 	"go/types"
@@ -71,6 +72,19 @@ func (x *Exec) call(st *State, in ssa.Instruction, cc *ssa.CallCommon, res ssa.V
 			t := env.evalBool(cl.Expr)
 			x.obligeClause("assert", site+"/"+clauseLabel(cl), st.reach, t, cl)
 		}
+		for _, ef := range x.con.SiteSets[site] {
+			env := x.newEnv(st, x.oldOf(st))
+			if in != nil {
+				env.atBlock = in.Block()
+			}
+			env.bindCallArgs(tgt, recv, args)
+			v := env.eval(ef.Expr)
+			comp := env.compByName("ghost:" + ef.Name)
+			if comp == "" {
+				panic(contractErr("set: unknown ghost " + ef.Name))
+			}
+			vc.set(st, comp, v.t)
+		}
 	}
 	if tgt.dynamic && !cc.IsInvoke() {
 		fv := x.value(cc.Value)
@@ -97,8 +111,13 @@ func (x *Exec) call(st *State, in ssa.Instruction, cc *ssa.CallCommon, res ssa.V
 		if len(tgt.con.Locks) > 0 {
 			x.callerAcquire(st, tgt, recv, args)
 		}
+		preReach, preN := st.reach, len(vc.lines)
 		results := x.applyContract(st, in, tgt, recv, args, sig, site, cc)
 		x.setResult(res, sig, results)
+		if x.depth == 0 && os.Getenv("GVC_NOSITECOVER") == "" {
+			vc.oblige(&Obl{Name: x.prefix + "/cover/after_" + strings.ReplaceAll(site, " ", "_"), Kind: "cover", Props: x.props, Reach: st.reach, Goal: "false", Cover: true,
+				PreReach: preReach, PreNLines: preN, Src: "assumed contract of " + tgt.display + " consistent with the caller's state"})
+		}
 		if md, base, sty := x.monitorLockArg(cc); md != nil && (strings.HasSuffix(tgt.display, ".Lock") || strings.HasSuffix(tgt.display, ".RLock")) {
 			x.monitorAcquire(st, md, sty, base)
 		}
@@ -845,6 +864,9 @@ func (x *Exec) rtypeAfterCall(st *State, c *Contract, tgt *target, oldNext, newN
 		for _, tn := range c.Allocates {
 			env := x.newEnvFor(st, st, tgt.pkg)
 			t := env.resolveType(tn)
+			if !x.g.trackedStruct(t) {
+				continue // not tagged while verifying this package: its objects carry tag 0 like every untracked allocation
+			}
 			alts = append(alts, eq("(select "+nr+" x)", vc.structTID(t)))
 		}
 		vc.assert(fmt.Sprintf("(forall ((x Int)) (! %s :pattern ((select %s x))))", or(alts...), nr))
